@@ -433,13 +433,15 @@ def parse_values(output):
             pos[0] += 1
             return lst
         return t
-    if not toks:
+    if not toks or toks[0] != '(':
         return vals
-    try:
-        top = parse()
-    except IndexError:
-        return vals
-    for pair in top:
+    # pair by pair, so that output cut short by a time limit still yields the values printed so far
+    pos[0] = 1
+    while pos[0] < len(toks) and toks[pos[0]] == '(':
+        try:
+            pair = parse()
+        except IndexError:
+            break
         if isinstance(pair, list) and len(pair) == 2:
             vals[unparse(pair[0])] = sval(pair[1])
     return vals
